@@ -49,7 +49,7 @@ ENTRY = dict(
     multi_seed=True,
     rule=("sets of 1..3 executable processes (start->end, start->task->end, xor split on a task result, parallel fork/join, "
           "throw shapes, catch shapes) x 0..2 waiting processes x 0..2 message flows (throw -> start event of a waiting process, "
-          "throw -> catch event of another member, both, two throws to one start event, a throw without a flow); wait modes: "
+          "throw -> catch event of another member, both, two throws to one start event, a throw without a flow, ONE throw event passed by two tokens — shape thrtwo: every token that reaches a throw event passes it, specification throw_event_swallows_token); wait modes: "
           "single, 2-3 sequential, 2-4 concurrent goroutines issued before completion, an early wait that expires followed by "
           "a late one; schedules: free, watchers held at processset.watcher.before_subscribe until the fast / all processes "
           "have finished, run held at process.startwith.before_trigger until the throwing process has finished, seeded "
